@@ -133,7 +133,7 @@ def scenarios(ctx):
                            init=(('connect', 0, True, k, 4), ('connack', 0, 0, False)),
                            reconnects=[(True, k, 4), (True, 0, 4)], pub_qos=(1,), waits=(k / 2.0,),
                            closing=False,
-                           budgets=dict(tick=8 if q else 12, wait=1 if q else 2, pingresp=3 if q else 5, lose=1,
+                           budgets=dict(tick=10 if q else 13, wait=2, pingresp=4 if q else 5, lose=1,
                                         rebuild=1, connect=1, connack=1)))
     out.append(Scn('k2-traffic', profile='pub', mode='async',
                    init=(('connect', 0, True, 2, 4), ('connack', 0, 0, False)), pub_qos=(1,), waits=(1.0,), closing=False,
